@@ -1,8 +1,15 @@
-from .. import family_exec
+from .. import common, family_exec
+
+
+def _extra(rep, tier):
+    # conservation as an INDUCTIVE invariant of an integer abstraction of one pool (any capacity, any allocation sizes, runs of any length)
+    r = common.run_apalache_inductive(common.SPEC / "apalache", "MC_PoolAbs", "Init", "IndInit", "IndInv")
+    rep.extra["inductive_invariant"] = {"spec": "spec/apalache/PoolAbs.tla", "invariant": "free + sum of allocations = capacity, free >= 0 unless overcommit",
+                                        "checker": "apalache-mc 0.58 (--length=0 from Init, --length=1 from IndInit)", "obligations": r}
 
 
 def run(tier):
-    return family_exec.run("C03", tier)
+    return family_exec.run("C03", tier, extra=_extra)
 
 
 def replay(path):
